@@ -169,6 +169,8 @@ try:
     ev["wall_s"] = ev.get("wall_s", 0) + wall
     ev["violations"] = ev.get("violations", 0) + violations
     json.dump(ev, open(ev_path, "w"), indent=1)
+    os.makedirs("%s/evidence/thorough" % V, exist_ok=True)
+    json.dump(ev, open("%s/evidence/thorough/%s.json" % (V, id), "w"), indent=1)
 except Exception as e:
     print("fuzz tier: cannot update %s: %s" % (ev_path, e), file=sys.stderr)
     rc = max(rc, 2)
